@@ -12,22 +12,6 @@ pub fn fmt_stub(_args: core::fmt::Arguments<'_>) -> String {
 
 const MAXLEN: usize = 3;
 
-// Contract chaining for the element copy: `#[derive(Clone)]` on SourcedValue / Value is replaced
-// by its contract restricted to the elements the harnesses build (Int payload, no source): the
-// copy is an equal Int with no source.  Any other element reaching it fails a named check, so
-// the restriction cannot hide anything.  Needed because the element is read at a SYMBOLIC index
-// (start is symbolic): CBMC then cannot fold the enum discriminant and the real clone glue
-// dereferences the "pointers" of every other variant (measured: > 30 GB, OOM).
-pub fn sourced_value_clone_stub(x: &SourcedValue) -> SourcedValue {
-    match x {
-        SourcedValue{v: Value::Int(n), source: None} => SourcedValue{v: Value::Int(*n), source: None},
-        _ => {
-            assert!(false, "harness_elements_are_plain_ints");
-            SourcedValue{v: Value::Null, source: None}
-        },
-    }
-}
-
 fn sym_bound() -> Option<usize> {
     let present: bool = kani::any();
     let v: usize = kani::any();
@@ -204,9 +188,9 @@ fn list_range_cell(n: usize, e: &[i64; MAXLEN], start: Option<usize>, end: Optio
     was_ok
 }
 
-// All ends (omitted, 0 ..= n+1) for one start.
+// A group of cells for one length: each bound omitted or in 0 ..= n+1.
 macro_rules! list_range_harness {
-    ($name:ident, $n:expr, $start:expr, [$($end:expr),*]) => {
+    ($name:ident, $n:expr, $any_defined:expr, [$(($start:expr, $end:expr)),*]) => {
         #[kani::proof]
         #[kani::unwind(5)]
         #[kani::stub(alloc::fmt::format, fmt_stub)]
@@ -217,18 +201,22 @@ macro_rules! list_range_harness {
             $(
                 if list_range_cell($n, &e, $start, $end) { n_ok += 1; } else { n_err += 1; }
             )*
-            kani::cover!(n_ok > 0 || bound_or(&$start, 0) > $n, "cover_defined_range_reached");
+            // (cell-aware: a group whose start is n+1 has no defined cell)
+            kani::cover!(n_ok > 0 || !$any_defined, "cover_defined_range_reached");
             kani::cover!(n_err > 0, "cover_out_of_domain_reached");
         }
     };
 }
 
-list_range_harness!(c11_list_range_len3_from_omitted, 3, None, [None, Some(0), Some(1), Some(2), Some(3), Some(4)]);
-list_range_harness!(c11_list_range_len3_from_0, 3, Some(0), [None, Some(0), Some(1), Some(2), Some(3), Some(4)]);
-list_range_harness!(c11_list_range_len3_from_1, 3, Some(1), [None, Some(0), Some(1), Some(2), Some(3), Some(4)]);
-list_range_harness!(c11_list_range_len3_from_2, 3, Some(2), [None, Some(0), Some(1), Some(2), Some(3), Some(4)]);
-list_range_harness!(c11_list_range_len3_from_3, 3, Some(3), [None, Some(0), Some(1), Some(2), Some(3), Some(4)]);
-list_range_harness!(c11_list_range_len3_from_4, 3, Some(4), [None, Some(0), Some(1), Some(2), Some(3), Some(4)]);
+list_range_harness!(c11_list_range_len0, 0, true, [(None, None), (None, Some(0)), (None, Some(1)), (Some(0), None), (Some(0), Some(0)), (Some(0), Some(1)), (Some(1), None), (Some(1), Some(0)), (Some(1), Some(1))]);
+list_range_harness!(c11_list_range_len1_from_omitted_or_0, 1, true, [(None, None), (None, Some(0)), (None, Some(1)), (None, Some(2)), (Some(0), None), (Some(0), Some(0)), (Some(0), Some(1)), (Some(0), Some(2))]);
+list_range_harness!(c11_list_range_len1_from_1_or_2, 1, true, [(Some(1), None), (Some(1), Some(0)), (Some(1), Some(1)), (Some(1), Some(2)), (Some(2), None), (Some(2), Some(0)), (Some(2), Some(1)), (Some(2), Some(2))]);
+list_range_harness!(c11_list_range_len3_from_omitted, 3, true, [(None, None), (None, Some(0)), (None, Some(1)), (None, Some(2)), (None, Some(3)), (None, Some(4))]);
+list_range_harness!(c11_list_range_len3_from_0, 3, true, [(Some(0), None), (Some(0), Some(0)), (Some(0), Some(1)), (Some(0), Some(2)), (Some(0), Some(3)), (Some(0), Some(4))]);
+list_range_harness!(c11_list_range_len3_from_1, 3, true, [(Some(1), None), (Some(1), Some(0)), (Some(1), Some(1)), (Some(1), Some(2)), (Some(1), Some(3)), (Some(1), Some(4))]);
+list_range_harness!(c11_list_range_len3_from_2, 3, true, [(Some(2), None), (Some(2), Some(0)), (Some(2), Some(1)), (Some(2), Some(2)), (Some(2), Some(3)), (Some(2), Some(4))]);
+list_range_harness!(c11_list_range_len3_from_3, 3, true, [(Some(3), None), (Some(3), Some(0)), (Some(3), Some(1)), (Some(3), Some(2)), (Some(3), Some(3)), (Some(3), Some(4))]);
+list_range_harness!(c11_list_range_len3_from_4, 3, false, [(Some(4), None), (Some(4), Some(0)), (Some(4), Some(1)), (Some(4), Some(2)), (Some(4), Some(3)), (Some(4), Some(4))]);
 
 // ---------------------------------------------------------------------------------------
 // concatenation: (s + t) has the elements of s then t
@@ -359,8 +347,12 @@ fn check_concat_list(
     }
 }
 
-// BOUNDED: both lists of length <= 2, elements Int (payloads symbolic). Lengths are CONCRETE per
-// harness cell (symbolic lengths do not finish in 5 min: measured).
+// List + List.  MEASURED: any cell with at least one element (1+0, 1+1, ... also with the element
+// clone stubbed) does not finish symbolic execution in 300 s -- the operator drops its two
+// temporary `Vec<SourcedValue>` copies, which is the recursive drop glue of README rule 2.
+// Only the EMPTY cells are under contract: [] + [] and xs + xs for xs == []; they still decide
+// "fresh cell, operands unchanged and unlocked".  The contract functions are written for any
+// length <= 2 so that larger cells can be added when the tooling allows.
 fn concat_list_contract(nx: usize, ny: usize) {
     let (x0, x1, y0, y1): (i64, i64, i64, i64) = kani::any();
     let l: usize = kani::any();
@@ -396,12 +388,6 @@ macro_rules! concat_list_harness {
     };
 }
 
-concat_list_harness!(c11_concat_list_0_0, 0, 0);
-concat_list_harness!(c11_concat_list_0_2, 0, 2);
-concat_list_harness!(c11_concat_list_1_0, 1, 0);
-concat_list_harness!(c11_concat_list_1_1, 1, 1);
-concat_list_harness!(c11_concat_list_2_1, 2, 1);
-concat_list_harness!(c11_concat_list_2_2, 2, 2);
 
 // `xs + xs`: both operands are the SAME list. BOUNDED: length <= 2 (concrete per cell).
 fn concat_list_with_itself_contract(nx: usize) {
@@ -423,6 +409,8 @@ fn concat_list_with_itself_contract(nx: usize) {
     std::mem::forget((a, a_alias, xs));
 }
 
+concat_list_harness!(c11_concat_list_empty_empty, 0, 0);
+
 macro_rules! concat_list_with_itself_harness {
     ($name:ident, $n:expr) => {
         #[kani::proof]
@@ -434,22 +422,4 @@ macro_rules! concat_list_with_itself_harness {
     };
 }
 
-concat_list_with_itself_harness!(c11_concat_list_with_itself_len0, 0);
-concat_list_with_itself_harness!(c11_concat_list_with_itself_len1, 1);
-concat_list_with_itself_harness!(c11_concat_list_with_itself_len2, 2);
-
-// XEXP-BEGIN
-pub fn vec_drop_stub(_v: &mut Vec<SourcedValue>) {}
-macro_rules! xconcat_stub {
-    ($name:ident, $nx:expr, $ny:expr) => {
-        #[kani::proof]
-        #[kani::unwind(6)]
-        #[kani::stub(alloc::fmt::format, fmt_stub)]
-        #[kani::stub(<std::vec::Vec<crate::eval::value::SourcedValue> as core::ops::Drop>::drop, vec_drop_stub)]
-        fn $name() {
-            concat_list_contract($nx, $ny);
-        }
-    };
-}
-xconcat_stub!(xc_1_1_dropstub, 1, 1);
-// XEXP-END
+concat_list_with_itself_harness!(c11_concat_list_empty_with_itself, 0);
